@@ -239,3 +239,20 @@ Theorem C11_statics_warm_no_writes : forall name s t fl,
   (forall g, ~ In (VZero g) t) -> forall n, ~ In (VWr n) t.
 Proof. exact (fun name s t fl => warm_no_plain_writes static_entry_points name s t fl statics_ok). Qed.
 Print Assumptions C11_statics_warm_no_writes.
+
+(* ---- round 4: value-aware guards.  The skeleton records `flag.store(<non-zero literal>)`; under the value-aware semantics
+   (a guard `if (!g)` is entered iff g is zero) one normally completing call of VirtMem::info / CpuInfo::host always leaves its
+   guard flag set (reflection over the regenerated skeleton) ... *)
+Theorem C11_statics_warmup_sets_flags : warmup_diag static_entry_points = [].
+Proof. exact statics_warmup_ok. Qed.
+Print Assumptions C11_statics_warmup_sets_flags.
+
+(* ... hence after ONE warming call every later call - whatever else set flags in between - never observes the flag zero and
+   writes no non-atomic static guarded by it: the premise "once the host information has been initialised" is established by a
+   single call of info()/host() (what JitRuntime's constructor does) *)
+Theorem C11_statics_warm_after_first_call : forall name s g nz t1 fl1 nz1 nz1' t2 fl nz2,
+  In (name, s) static_entry_points -> always_sets g s = true ->
+  vrun nz s t1 fl1 nz1 -> (forall x, nz1 x = true -> nz1' x = true) -> vrun nz1' s t2 fl nz2 ->
+  ~ In (VZero g) t2 /\ forall n, guard_of n = Some g -> ~ In (VWr n) t2.
+Proof. exact (fun name s g nz t1 fl1 nz1 nz1' t2 fl nz2 => warm_after_first_call static_entry_points name s g nz t1 fl1 nz1 nz1' t2 fl nz2 statics_ok). Qed.
+Print Assumptions C11_statics_warm_after_first_call.
